@@ -173,7 +173,11 @@ func (g *Graph) signals(sig, msg map[string]bool) {
 			case "signal":
 				sig[d.Ref] = true
 			case "message":
-				msg[d.Ref] = true
+				ref := d.Ref
+				if j := strings.Index(ref, "#"); j >= 0 {
+					ref = ref[:j]
+				}
+				msg[ref] = true
 			}
 		}
 	}
@@ -194,7 +198,12 @@ func writeDefs(b *strings.Builder, ind string, n *Node) {
 		case "signal":
 			fmt.Fprintf(b, "%s<bpmn:signalEventDefinition id=\"%s_d%d\" signalRef=\"%s\"/>\n", ind, n.ID, i, esc(d.Ref))
 		case "message":
-			fmt.Fprintf(b, "%s<bpmn:messageEventDefinition id=\"%s_d%d\" messageRef=\"%s\"/>\n", ind, n.ID, i, esc(d.Ref))
+			// "m#op": message m with operation reference op
+			if j := strings.Index(d.Ref, "#"); j >= 0 {
+				fmt.Fprintf(b, "%s<bpmn:messageEventDefinition id=\"%s_d%d\" messageRef=\"%s\"><bpmn:operationRef>%s</bpmn:operationRef></bpmn:messageEventDefinition>\n", ind, n.ID, i, esc(d.Ref[:j]), esc(d.Ref[j+1:]))
+			} else {
+				fmt.Fprintf(b, "%s<bpmn:messageEventDefinition id=\"%s_d%d\" messageRef=\"%s\"/>\n", ind, n.ID, i, esc(d.Ref))
+			}
 		case "timer":
 			fmt.Fprintf(b, "%s<bpmn:timerEventDefinition id=\"%s_d%d\"><bpmn:%s xsi:type=\"bpmn:tFormalExpression\">%s</bpmn:%s></bpmn:timerEventDefinition>\n", ind, n.ID, i, d.Sub, esc(d.Ref), d.Sub)
 		}
